@@ -11,6 +11,9 @@ import QipVerif.Gen.DecompAlias
   label = `n` | `f<k>_<m>` (the text kπ/m) | `u<id>` (a user's text)
   cond  = `n` | `<bits>:<value>`            fgate = item fields + `/src` (`n` | index of the input gate passed through)
   alias names of `Gen.ruleAlias` (`H`) are read as their canonical name (`resolveCA`)
+* `history v=<3 bits> items=<items> ops=<op|op|…>` → the answers of the `resolve_gates` calls of a history on ONE circuit
+  object, joined by `#` (`Decomp.runHistory`); op = `R~<basis>` | `T~i~<targets>` | `C~i~<controls>` | `A~i~<angle>` |
+  `K~i~<cond>` | `P~<item>` (append) | `D~i` (remove)
 * `buildable gates=<list>` → `1,0,…`: do the constructors of the gate classes accept name + controls (`Decomp.buildable`)
 -/
 open QipVerif QipVerif.Proto QipVerif.GateIO QipVerif.Decomp
@@ -71,6 +74,26 @@ def variant? (s : String) : Option FVariant :=
     if [a, b, c].all (fun x => x == '0' || x == '1') then some ⟨a == '1', b == '1', c == '1'⟩ else none
   | _ => none
 
+def hop? (s : String) : Option HOp :=
+  match s.splitOn "~" with
+  | ["R", b] => (basis? b).map HOp.resolve
+  | ["T", i, t] => match i.toNat?, natsDot? t with
+    | some i, some ts => some (.setTargets i ts) | _, _ => none
+  | ["C", i, c] => match i.toNat?, natsDot? c with
+    | some i, some cs => some (.setControls i cs) | _, _ => none
+  | ["A", i, a] => match i.toNat?, ang? a with
+    | some i, some a => some (.setArg i a) | _, _ => none
+  | ["K", i, k] => match i.toNat?, cond? k with
+    | some i, some c => some (.setCond i c) | _, _ => none
+  | ["P", it] => (item? it).map HOp.append
+  | ["D", i] => i.toNat?.map HOp.remove
+  | _ => none
+
+def showAnswer : Except ErrC (List FGate) → String
+  | .ok out => "ok " ++ (if out.isEmpty then "-" else ";".intercalate (out.map showF))
+  | .error .measurement => "err measurement"
+  | .error (.res e) => "err " ++ errName e
+
 def step (line : String) : String :=
   let fs := fields line
   match fs.head? with
@@ -85,6 +108,12 @@ def step (line : String) : String :=
     match (fStr? fs "gates").bind gates? with
     | some gs => ",".intercalate (gs.map fun g => if buildable g then "1" else "0")
     | none => "bad-op"
+  | some "history" =>
+    match (fStr? fs "v").bind variant?, (fStr? fs "items").bind items?,
+        (fStr? fs "ops").bind (fun s => (splitNE s "|").mapM hop?) with
+    | some v, some its, some ops =>
+      "#".intercalate ((runHistory Gen.tables Gen.labels Gen.ruleAlias v its ops).map showAnswer)
+    | _, _, _ => "bad-op"
   | some "resolvef" =>
     match (fStr? fs "v").bind variant?, (fStr? fs "basis").bind basis?, (fStr? fs "items").bind items? with
     | some v, some b, some its =>
